@@ -257,6 +257,9 @@ BYTES_FAMILIES += [
     ['0f1200', '0f12c1', '0f1600', '0f16ca', '0f134104', '0f174104', '660f1200', '660f1600'],       # movlps/movhlps/movhps/movlhps forms
     ['66ff10', '66ffd0', '66e80001', 'ff10', 'ffd0', 'e800010000', '66ff20', 'ff20', '7410', '66e90001'],  # 16- and 32-bit calls and jumps
 ]
+BYTES_FAMILIES += [
+    ['c3', '66c3', 'cb', '66cb', 'c20400', '66c20400', 'ca0400', 'c3', '66c3', 'cf', '66cf'],       # near/far returns at both operand sizes, with and without immediate
+]
 def gen_family_pool(rng, n=4):
     fam = rng.choice(BYTES_FAMILIES)
     return [rng.choice(fam) for _ in range(n)]
